@@ -335,7 +335,9 @@ type fakeStream struct {
 	data []byte
 }
 
-func (f *fakeStream) MsgRecv(msg drpc.Message, enc drpc.Encoding) error { return enc.Unmarshal(f.data, msg) }
+func (f *fakeStream) MsgRecv(msg drpc.Message, enc drpc.Encoding) error {
+	return enc.Unmarshal(f.data, msg)
+}
 
 type fakeConn struct {
 	encoding.ConnUnblocked
